@@ -17,6 +17,7 @@ def run(F, rep):
     rep.engines.update(["E2-BV", "E2-DT", "E1"])
     lemmas.dnastring_lemmas(F, rep, which={"new", "get", "push", "extend", "rc", "render", "ndiffs"})
     lemmas.dnastring_render_lemmas(F, rep, "C14.3")
+    lemmas.dnastring_order_lemmas(F, rep, "C14.4")
     structural.check_derives(F, rep, "C14.4", DS, ["std::cmp::PartialEq", "std::cmp::Eq", "std::hash::Hash", "std::cmp::PartialOrd", "std::cmp::Ord"])
     fns = structural.field_names(F, DS)
     if fns == ["storage", "len"]:
